@@ -38,6 +38,7 @@ type Access struct {
 	Func  string   `json:"func"`  // pkg.Recv.Method or pkg.Func, "#n" suffix for the n-th function literal inside
 	Write bool     `json:"write"`
 	Locks []string `json:"locks"` // pkg.Struct.mutexField held
+	Own   []string `json:"own"`   // those of Locks that are fields of the same struct as Field (same object ⇒ same mutex instance)
 	Fresh bool     `json:"fresh"` // object not yet published (built in this function)
 	Pos   string   `json:"pos"`
 }
@@ -563,7 +564,9 @@ func (w *walker) block(b *ast.BlockStmt) {
 	}
 }
 
-func leanStr(s string) string { return `"` + strings.ReplaceAll(strings.ReplaceAll(s, `\`, `\\`), `"`, `\"`) + `"` }
+func leanStr(s string) string {
+	return `"` + strings.ReplaceAll(strings.ReplaceAll(s, `\`, `\\`), `"`, `\"`) + `"`
+}
 
 func leanStrs(xs []string) string {
 	q := make([]string, len(xs))
@@ -747,6 +750,13 @@ func main() {
 				a.Locks = append(a.Locks, l)
 			}
 			sort.Strings(a.Locks)
+			owner := a.Field[:strings.LastIndex(a.Field, ".")]
+			a.Own = []string{}
+			for _, l := range a.Locks {
+				if l[:strings.LastIndex(l, ".")] == owner {
+					a.Own = append(a.Own, l)
+				}
+			}
 			all = append(all, a)
 		}
 	}
@@ -787,7 +797,7 @@ func main() {
 	var sb strings.Builder
 	sb.WriteString("/- REGENERATED on every run by /verif/extract/lockset from the grpcbridge sources. Do not edit. -/\n")
 	sb.WriteString("namespace GB.Generated\n\n")
-	sb.WriteString("structure Access where\n  field : String\n  fn : String\n  write : Bool\n  locks : List String\n  fresh : Bool\nderiving Repr, DecidableEq\n\n")
+	sb.WriteString("structure Access where\n  field : String\n  fn : String\n  write : Bool\n  locks : List String\n  own : List String\n  fresh : Bool\nderiving Repr, DecidableEq\n\n")
 	sb.WriteString(fmt.Sprintf("/-- type-check / load errors while extracting (must be 0) -/\ndef locksetLoadErrors : Nat := %d\n\n", loadErrs))
 	sb.WriteString("/-- accesses to plain (non-synchronised) fields that are written after publication somewhere -/\n")
 	sb.WriteString("def accesses : List Access := [\n")
@@ -796,7 +806,7 @@ func main() {
 		if i == len(live)-1 {
 			sep = ""
 		}
-		sb.WriteString(fmt.Sprintf("  ⟨%s, %s, %v, %s, %v⟩%s -- %s\n", leanStr(a.Field), leanStr(a.Func), a.Write, leanStrs(a.Locks), a.Fresh, sep, a.Pos))
+		sb.WriteString(fmt.Sprintf("  ⟨%s, %s, %v, %s, %s, %v⟩%s -- %s\n", leanStr(a.Field), leanStr(a.Func), a.Write, leanStrs(a.Locks), leanStrs(a.Own), a.Fresh, sep, a.Pos))
 	}
 	sb.WriteString("]\n\n")
 	var sf []string
